@@ -109,6 +109,21 @@ def c05_oracle(case, obs):
             hi = lo + tick if info["name"] == "step" else max(info["after"], lo + tick)
             if not (lo <= se <= hi):
                 out.append(("%s: sim_elapsed %d outside the window [%d, %d] of its step" % (where, se, lo, hi), klass))
+    # ---- clock reads made by a host's software factory when it is (re)started ---------
+    for f in obs.get("factory", []):
+        host, inc, evi, se, ep = f
+        if se is None or evi < 0 or evi >= len(evinfo):
+            continue
+        info = evinfo[evi]
+        klass = K_FAILED if (failed_at is not None and evi >= failed_at) else None
+        where = "software factory of n%d (incarnation %d) called in event %d (%s)" % (host, inc, evi, info["name"])
+        if ep != epoch + se:
+            out.append(("%s: since_epoch %d != epoch %d + sim_elapsed %d" % (where, ep, epoch, se), None))
+        if se != info["before"] and klass is None:
+            out.append(("%s: sim_elapsed() = %d while Sim::elapsed is %d" % (where, se, info["before"]), None))
+        p = last.get(host)
+        if p is not None and klass is None and [e for e in obs.get("log", []) if e[0] == host and e[5] > evi and e[7] is not None and e[7] < se]:
+            out.append(("%s: read sim_elapsed %d, later reads of the host are smaller (clock went back)" % (where, se), None))
     # ---- a whole-ms timer fires at exactly its virtual instant ---------------------
     by_task = {}
     for e in obs.get("log", []):
@@ -214,6 +229,34 @@ def F_sel(rng, h, n, kinds):
     return {"re": "^n(%s)$" % "|".join(str(i) for i in hosts)}
 
 
+def gen_finished_hosts():
+    """Hosts whose main future has returned Ok but left spawned tasks (with clock-reading drop guards)
+    behind; they are crashed / bounced some steps later, with and without real time passing in
+    between (wall_sleep), and restarted hosts read the clocks in their factory closure."""
+    out = []
+    for tick in (1 * MS, 3 * MS):
+        for after in (0, 2, 5):
+            for what in ("bounce", "crash-bounce", "bounce-bounce"):
+                for wall in (0, 40):
+                    p = {"main": [["obs"], ["sleep", 1 * MS], ["obs"]], "end": "ok", "ticker": True,
+                         "tasks": [{"ops": [["sleep", 50 * MS], ["obs"]], "end": "never"}, {"ops": [["obs"]], "end": "never"}]}
+                    q = {"main": [["obs"], ["sleep", 2 * MS], ["obs"]], "end": "never", "ticker": True, "tasks": []}
+                    script = [["host", [p, q]], ["host", [q]]] + [["step"]] * (3 + after)
+                    if wall:
+                        script.append(["wall_sleep", wall])
+                    if what == "bounce":
+                        script += [["bounce", {"h": 0}]]
+                    elif what == "crash-bounce":
+                        script += [["crash", {"h": 0}], ["step"], ["bounce", {"ip": 0}]]
+                    else:
+                        script += [["bounce", {"re": "^n[01]$"}], ["step"], ["step"], ["bounce", {"h": 0}]]
+                    script += [["step"]] * 4 + [["probe"]]
+                    cfg = {"tick_ns": tick, "duration_ns": 1000 * MS, "epoch_ns": F.EPOCHS[(after + wall) % len(F.EPOCHS)],
+                           "random_order": False, "seed": after}
+                    out.append({"cfg": cfg, "script": script, "flavour": "clock-finished-hosts"})
+    return out
+
+
 def gen_crash_points():
     """Exhaustive small family: one host reading clocks around a sleep, crashed after
     i steps and bounced after j more, a late client, ticks 1/2/3 ms and 700 us."""
@@ -269,7 +312,12 @@ class Spec(PropSpec):
         ex = gen_crash_points()
         if ctx.tier == "quick":
             ex = ctx.rng.sample(ex, 120)
-        return ex + cases
+        fin = gen_finished_hosts()
+        if ctx.tier == "quick":
+            # all without real sleeps, a few of the (slow) ones with
+            fin = [c for c in fin if not any(e[0] == "wall_sleep" for e in c["script"])] + \
+                  ctx.rng.sample([c for c in fin if any(e[0] == "wall_sleep" for e in c["script"])], 6)
+        return fin + ex + cases
 
     def to_model(self, case, obs):
         return F.to_model(case, obs)
